@@ -19,7 +19,7 @@ RULE = ('files: C01 producer restricted to layouts with multi-segment records an
         'non-trivial case = a file; outcome = hash of (file, returned bytes)')
 ASSUMPTIONS = ['the index description\'s length field is not asserted (documented to include pad bytes)',
                'offset/length follow Python slice semantics on the full payload; negative offsets are outside the API']
-BOUNDS = {'quick': 'about 300 files, history depth <= 2', 'thorough': 'about 3000 files, history depth <= 3'}
+BOUNDS = {'quick': 'about 400 files, history depth <= 3 (the frontier closes for every file)', 'thorough': 'about 3000 files, history depth <= 4'}
 LEVEL_TEXT = ('For each enumerated file every reachable abstract state of the reader (its cursor fields) is expanded with '
               'every fetch of the operation grid, so "whatever was fetched before" is decided for all histories up to the '
               'depth at which the frontier closes (reported).')
@@ -224,7 +224,7 @@ def shards(tier):
 
 def run_shard(shard, tier):
     res = Result()
-    depth = 2 if tier == 'quick' else 3
+    depth = 3 if tier == 'quick' else 4
     for i, case in enumerate(gen_files(tier)):
         if i % shard['of'] != shard['part']:
             continue
